@@ -66,13 +66,16 @@ RULE = (
 )
 LEVEL_TEXT = (
     "Proved for all objects, index lists (any order, repeats, negative indices) and masks: a successful remove_vertices / "
-    "remove_cells / masked copy keeps exactly the complement, every surviving vertex and cell keeps its coordinates and "
-    "its value in every data child, cells reference existing vertices and connect the same coordinates, lengths stay "
-    "equal to the element counts; shorter value arrays are padded with the no-data value, longer ones refused without "
-    "change; for the repaired code every failing operation leaves the object unchanged (up to a value-less child left by "
-    "a refused add_data) and consistency is an invariant of all histories. For the pinned tree atomicity is refuted with "
-    "a replayed witness (two recorded findings) and proved under the side condition that excludes them. Tie: "
-    "differential correspondence on generated histories evaluated inside Coq; the repair flags are read off the source."
+    "remove_cells / masked copy (vertex mask or cell mask of the right length) keeps exactly the complement, every surviving "
+    "vertex and cell keeps its coordinates and its value in every data child, cells reference existing vertices and connect "
+    "the same coordinates, lengths stay equal to the element counts; Data.copy onto any parent keeps every kept element at "
+    "its own index (or compacts onto a smaller parent); shorter numeric arrays are padded with the no-data value, longer "
+    "ones refused without change. For the repaired code and for OBJECTS WITHOUT PER-ELEMENT TEXT DATA AND SINGLE-MASK COPIES "
+    "(no_text_kids, plain_ok) every failing operation leaves the object unchanged and consistency is an invariant of all "
+    "histories; with text data the same holds only under copy_args_ok (_partial theorems), which excludes the three open "
+    "text-data findings. For the pinned tree atomicity is refuted with a replayed witness and proved under the side condition "
+    "that excludes the recorded findings. Tie: differential correspondence on generated histories evaluated inside Coq; the "
+    "repair flags are read off the source."
 )
 TECHNIQUE = "Coq proof over a hand model (induction on masks/children/histories) + in-Coq differential correspondence"
 
@@ -923,8 +926,11 @@ def _ghost_then_copy(obs):
 
 
 def case_term(case, obs):
-    if case.get("kind") is None and "steps" in obs:
+    try:
         _flags_term()
+    except Exception:  # noqa: BLE001 - the source shape is not one the model knows: no case can be confirmed
+        return "false"
+    if case.get("kind") is None and "steps" in obs:
         if not _FLAGS["add_rollback"] and _ghost_then_copy(obs):
             # tree without the roll-back: the copy re-uses the unregistered child's uid and what later snapshots show depends on
             # file-level state outside this model (C02/C06 territory) - no prediction
